@@ -30,12 +30,20 @@ class Rig:
         self.loads_fail = {}      # stream name -> exception instance to raise when decoded
         self.log = []
         self.thread_errors = []
+        self.daemon = None        # the daemon new client connections reach (fake_create_socket)
+        self.connections = 0
+        self.client_socks = []
 
 
 RIG = Rig()
 
 
 def reset(S):
+    import gc
+    # finalizers of objects left over from an earlier path (proxies, stream iterators) must not reach this
+    # path's daemon: flush them while no daemon is reachable
+    RIG.__init__()
+    gc.collect()
     RIG.__init__()
     RIG.S = S
 
@@ -154,6 +162,7 @@ class LoopbackSock(FakeSock):
         self.server_conn = socketutil.SocketConnection(self.server_sock)
         self.server_alive = True
         self.requests = 0
+        self.handshaken = True     # make_proxy constructs the connected state directly
 
     def sendall(self, data):
         self._send_check()
@@ -164,7 +173,14 @@ class LoopbackSock(FakeSock):
         self.server_sock.queue(data)
         n = len(self.server_sock.sent)
         try:
-            self.daemon.handleRequest(self.server_conn)
+            if not self.handshaken:
+                if self.daemon._handshake(self.server_conn):
+                    self.handshaken = True
+                else:
+                    self.server_alive = False
+                    self.server_conn.close()
+            else:
+                self.daemon.handleRequest(self.server_conn)
         except Exception as x:
             # the server layer would drop the connection
             self.server_alive = False
@@ -177,10 +193,25 @@ class LoopbackSock(FakeSock):
         return len(data)
 
 
+def fake_create_socket(bind=None, connect=None, reuseaddr=False, keepalive=True, timeout=-1, noinherit=False,
+                       ipv6=False, nodelay=True, sslContext=None):
+    """a new client connection to the rig's daemon (the server side will expect a handshake first)"""
+    if RIG.daemon is None or connect is None:
+        raise ConnectionRefusedError(errno.ECONNREFUSED, "connection refused")
+    RIG.connections += 1
+    s = LoopbackSock(RIG.daemon, "cli%d" % RIG.connections)
+    s.handshaken = False
+    if timeout != -1:
+        s.timeout = timeout
+    RIG.client_socks.append(s)
+    return s
+
+
 def make_proxy(daemon, objectId="obj", methods=(), oneway=(), attrs=()):
     """a real client.Proxy connected through a LoopbackSock (no handshake: state constructed directly)"""
     from Pyro5 import client
     p = client.Proxy("PYRO:%s@localhost:9999" % objectId)
+    RIG.daemon = daemon
     sock = LoopbackSock(daemon)
     conn = socketutil.SocketConnection(sock, objectId)
     p._pyroConnection = conn
@@ -380,4 +411,5 @@ STUBS = _serializer_stubs() + [
     (server._OnewayCallThread, "start", thread_start, "both"),
     (threading.Thread, "run", thread_run_body, "symbolic"),
     (errors, "format_traceback", fake_format_traceback, "both"),
+    (socketutil, "create_socket", fake_create_socket, "both"),
 ]
